@@ -37,6 +37,9 @@ def corpus():
         "run prop=C07 mode=users conc=2 dur=300 body=1 maxit=20 failevery=3 failkind=panicnilptr",
         "run prop=C07 mode=users conc=2 dur=300 body=1 maxit=20 failevery=2 failkind=errnil",
         "run prop=C07 mode=users conc=2 dur=300 body=1 maxit=20 failevery=2 failkind=fatalnil",
+        "cli mode=users dur=%s conc=1 bodyms=1 maxit=6 failevery=2 failkind=panicstringer expectlimit=1" % hx("300ms"),              # C07k: a panic value whose String method panics
+        "cli mode=users dur=%s conc=1 bodyms=1 maxit=6 failevery=2 failkind=panicstringer logfmt=json expectlimit=1" % hx("300ms"),  # … with f1's own JSON logger
+        "cli mode=users dur=%s conc=2 bodyms=1 maxit=8 failevery=3 failkind=panicnilptr logfmt=json expectlimit=1" % hx("300ms"),
         "cli mode=users dur=%s conc=2 bodyms=5 failevery=2 failkind=panicerr logfile=bad" % hx("200ms"),
         "cli mode=users dur=%s conc=2 bodyms=5 failevery=3 failkind=errorf logfile=bad" % hx("200ms"),
         "cli mode=users dur=%s conc=1 bodyms=2 maxit=8 failevery=2 failkind=nilmap combine=1 expectlimit=1" % hx("300ms"),
@@ -62,7 +65,7 @@ def generate(rng, tier):
                     b += ".L%d" % rng.randint(0, 9)
             bodies.append(b)
         out.append("scn %d _/%s %s" % (rng.choice([nb, nb, 2 * nb, nb + 1]), "|".join(bodies), _scn.cleanups(rng, ncl, 0.3)))
-    kinds = ["failnow", "panicerr", "panicstr", "nilmap", "errorf", "timefail", "timeerr", "errunhash", "panicunhash", "paniclong", "panicint", "panicis", "panicnilptr", "errnil", "fatalnil"]
+    kinds = ["failnow", "panicerr", "panicstr", "nilmap", "errorf", "timefail", "timeerr", "errunhash", "panicunhash", "paniclong", "panicint", "panicis", "panicnilptr", "errnil", "fatalnil", "panicstringer"]
     for _ in range({"quick": 6, "thorough": 60, "search": 16}[tier]):
         if rng.random() < 0.5:
             out.append("run prop=C07 mode=%s dur=300 conc=%d body=%d maxit=%d failevery=%d failkind=%s%s" % (
